@@ -7,6 +7,12 @@ NOTES = ("All checks are bounded symbolic execution of the real functions (from 
 PIPE_NOTE = ("Source-level runs execute the REAL go/parser, go/types, go/cfg and the REAL NilAway stages (annotation, global, nolint, BackpropAcrossFunc, accumulation.run with both engines) from SSA, nothing stubbed; the driver, function.run's goroutine fan-out and the affiliation/anonymous-function/contract/struct-field analyzers are not part of it. Programs are enumerated from a stated grammar; the solver decides the program's run-time behaviour over all values of the opaque conditions. ")
 
 CLAIMS = {
+    "C18": dict(
+        text="For every two-package program of the C01 grammar the real pipeline reports the same places with byte-identical messages when the module is relocated (and the tool started at its new root), and the same places "
+             "when the tool is started in a sub-directory of the module - so every cross-package flow found in one layout is found in the others.",
+        note="Partial: three layouts, single process (dependency and importer see the same working directory), working directory injected through tokenhelper's captured value; RelToCwd itself is decided under C14. "
+             "Different working directories per package, symlinks and sandboxed relative names are outside. " + PIPE_NOTE,
+    ),
     "C01": dict(
         text="For every closed one-package program of the stated grammar of the core pointer fragment (2-3 statements over two pointer locals, a package-level pointer, nil/new/copies, dereferences, nil-check guards, "
              "early returns, opaque if / if-else, a callee in seven shapes) the real pipeline is run and the solver shows, over ALL values of the opaque conditions: if some execution of the entry function "
@@ -127,7 +133,6 @@ CLAIMS = {
 # reasons for every property not (yet) claimed
 NOT_APPLICABLE = {
     "C16": "The quantifier is goroutine interleavings over the whole analysis heap; symx has no thread model and no installed solver-based engine explores Go schedules.",
-    "C18": "Everything the property depends on is environment (process cwd captured at init, filepath.Rel, driver cwd); after stubbing those by contract the residual repo code is a one-line wrapper.",
 }
 for _p in []:
     NOT_APPLICABLE.setdefault(_p, "kernel check not yet registered (in progress; see DESIGN.md section 4)")
